@@ -7,6 +7,9 @@ from .values import *
 from .interp_call import next_id
 
 
+STRINT = {}       # term of str(<int>) -> Lin of the integer
+
+
 def is_digit_string(t):
     """term known to consist of digits valid for int(.., 16) / unhexlify"""
     if not isinstance(t, tuple) or not t:
@@ -16,7 +19,7 @@ def is_digit_string(t):
     if t[0] == "fmt":
         import re
         f = t[1]
-        return bool(re.fullmatch(r"['\"b]*%0?\d*[xXd]['\"]*", f))
+        return isinstance(f, str) and bool(re.fullmatch(r"['\"b]*%0?\d*[xXd]['\"]*", f))
     if t[0] in ("slice", "enc", "cat"):
         return all(is_digit_string(x) for x in t[1:3] if isinstance(x, tuple) and x and isinstance(x[0], str) and x[0] not in ("lin",)) and is_digit_string(t[1])
     if t[0] == "const":
@@ -315,6 +318,8 @@ class PrimMixin(object):
             return [(args[0], st)]
         t = ("str", term_of(args[0])) if args else fresh("str")
         define(("len", t), [Lin.sym(("len", t)) - 1] if args and isinstance(args[0], VInt) else [])
+        if args and isinstance(args[0], VInt):
+            STRINT[t] = args[0].lin
         return [(VBytes(t), st)]
 
     def p_bin(self, ctx, st, args, kwargs, node):
